@@ -472,6 +472,26 @@ pub const PROBE_AFTER_S: u64 = 5;
 /// computing all along (not blocked, not descheduled, not suspended)
 pub const SPIN_CPU_S: f64 = 60.0;
 
+/// Crash journal: when `QVMON_JOURNAL` names a file, every case is announced there (one
+/// unbuffered append per case) before it starts. `./check` switches this on only after a
+/// run died from a signal (stack overflow, abort), to find the case that kills the process:
+/// catch_unwind cannot turn those into data.
+fn journal(family: &str, index: u64) {
+    use std::io::Write;
+    static J: OnceLock<Option<Mutex<std::fs::File>>> = OnceLock::new();
+    let j = J.get_or_init(|| std::env::var("QVMON_JOURNAL").ok().and_then(|p| std::fs::OpenOptions::new().create(true).append(true).open(p).ok()).map(Mutex::new));
+    if let Some(f) = j {
+        let _ = f.lock().unwrap_or_else(|e| e.into_inner()).write_all(format!("{family} {index}\n").as_bytes());
+    }
+    // self-test of the abort supervisor in ./check: QVMON_TEST_ABORT="<family> <index>"
+    // makes exactly that case kill the process
+    if let Ok(t) = std::env::var("QVMON_TEST_ABORT") {
+        if t == format!("{family} {index}") {
+            std::process::abort();
+        }
+    }
+}
+
 fn current_tid() -> usize {
     std::fs::read_link("/proc/thread-self")
         .ok()
@@ -505,6 +525,7 @@ where
         if fam != family {
             return;
         }
+        journal(family, *idx);
         let mut rng = Rng::for_case(c.seed, c.prop, family, *idx);
         if let Err(e) = guarded(|| f(&mut rng, *idx)) {
             c.harness_error(&format!("monitor panicked in replay {family}#{idx}: {}", e.text()));
@@ -545,6 +566,7 @@ where
                         break;
                     }
                     *w.cur.lock().unwrap() = Some((i as u64, Instant::now()));
+                    journal(family, i as u64);
                     let mut rng = Rng::for_case(c.seed, c.prop, family, i as u64);
                     let t_case = Instant::now();
                     let res = guarded(|| f(&mut rng, i as u64));
